@@ -152,13 +152,13 @@ class StubWeather:
             self.winds[t * 24:(t + 1) * 24, widx, 0] = 99.0
 
 
-def method_properties(deployment_type, follow_up, crews, travel, hours, per_day=0.0, per_site=0.0):
+def method_properties(deployment_type, follow_up, crews, travel, hours, per_day=0.0, per_site=0.0, daylight=False):
     return {
         MP.DEPLOYMENT_TYPE: deployment_type,
         MP.SENSOR: {MP.TYPE: "default", MP.MDL: 1.0,
                     MP.QE: {MP.QUANTIFICATION_PARAMETERS: [0, 0], MP.Q_TYPE: "default"}},
         MP.MAX_WORKDAY: hours,
-        MP.CONSIDER_DAYLIGHT: False,
+        MP.CONSIDER_DAYLIGHT: bool(daylight),
         MP.WEATHER_ENVS: {MP.TEMP: [-50, 50], MP.WIND: [0, 10], MP.PRECIP: [0, 1]},
         MP.IS_FOLLOW_UP: follow_up,
         MP.T_BW_SITES: {pdc.Common_Params.VAL: travel},
@@ -168,8 +168,9 @@ def method_properties(deployment_type, follow_up, crews, travel, hours, per_day=
     }
 
 
-def make_method(cls_name, deployment_type, follow_up, crews, travel, hours, sites, consider_weather=True):
-    props = method_properties(deployment_type, follow_up, crews, travel, hours)
+def make_method(cls_name, deployment_type, follow_up, crews, travel, hours, sites, consider_weather=True,
+                daylight=False):
+    props = method_properties(deployment_type, follow_up, crews, travel, hours, daylight=daylight)
     klass = {"site": Method, "component": ComponentLevelMethod}[cls_name]
     with contextlib.redirect_stdout(io.StringIO()):  # crew-shortage warnings are printed
         return klass(M(), props, consider_weather, sites, None)
@@ -214,10 +215,29 @@ def queue_pop_order_check(schedule):
     return [(p, c) for p, c, _ in popped] == [(p, c) for p, c, _ in sorted(schedule._survey_queue.queue)]
 
 
+def MN(x):
+    """a minute value of the real objects, exactly: int when integral, else the (dyadic) float itself -- never
+    truncated (fractional daylight hours give fractional minutes)"""
+    from fractions import Fraction
+
+    f = Fraction(x)
+    return int(f) if f.denominator == 1 else float(f)
+
+
+class StubDaylight:
+    """what Method.get_daylight_hours reads: daylight hours of a date (may be fractional)"""
+
+    def __init__(self, hours):
+        self.hours = hours
+
+    def get_daylight(self, d):
+        return self.hours
+
+
 def report_state(rep):
     if rep is None:
         return None
-    return [1 if rep.survey_in_progress else 0, int(rep.time_surveyed)]
+    return [1 if rep.survey_in_progress else 0, MN(rep.time_surveyed)]
 
 
 def planner_state(pl, years):
@@ -242,7 +262,7 @@ def build_routine(case):
     stationary = case["kind"] == "stationary"
     dep = pdc.Deployment_Types.STATIONARY if stationary else pdc.Deployment_Types.MOBILE
     method = make_method(case.get("method_class", "site"), dep, False, case["crews"], case["T"],
-                         case["hours"], sites)
+                         case["hours"], sites, daylight=case.get("daylight") is not None)
     case["_crews_used"] = method.get_crew_count()
     case["_crew_reports"] = len(method._crew_reports)
     case["_crews_estimate"] = None if stationary else documented_crew_estimate(case)
@@ -253,9 +273,23 @@ def build_routine(case):
     else:
         cap = case["cap"] if case.get("cap") is not None else method.estimate_average_daily_surveys()
         case["_cap_used"] = cap
+        case["_cap_method"] = method.estimate_average_daily_surveys()   # what the real Method would hand to its schedule
+        case["_cap_documented"] = documented_daily_surveys(case)
         sched = MobileSchedule(M(), sites, start, end, cap, method.get_crew_count())
     weather = StubWeather(len(sites))
     return sites, method, sched, weather
+
+
+def documented_daily_surveys(case):
+    """surveys one crew is planned for per day as documented: ceil(workday minutes / average (survey + travel)
+    minutes over the sites) -- from the configuration only"""
+    import math
+
+    t = case["T"]
+    if isinstance(t, list):
+        t = sum(t) / len(t)
+    avg_s = sum(s["S"] + t for s in case["sites"]) / len(case["sites"])
+    return math.ceil(case["hours"] * 60 / avg_s)
 
 
 def documented_crew_estimate(case):
@@ -372,7 +406,7 @@ def run_routine(case, forced=None):
             if forced is not None:
                 _forced_deploy(wp, forced.get(k, {}), cur, method)
             else:
-                method.deploy_crews(wp, weather, None)
+                method.deploy_crews(wp, weather, None if case.get("daylight") is None else StubDaylight(case["daylight"]))
             reports, planners = wp.get_reports()
             rec["reports"] = sorted(IDX(x) for x in reports.keys())
             outs = []
@@ -385,7 +419,7 @@ def run_routine(case, forced=None):
                 prev = 0 if b is None else b[1]
                 if rep.survey_complete:
                     st = "C"
-                elif rep.survey_in_progress and int(rep.time_surveyed) != prev:
+                elif rep.survey_in_progress and MN(rep.time_surveyed) != prev:
                     st = "P"
                 elif rep.survey_in_progress and b is not None and b[0] == 1:
                     st = "U"  # in progress since an earlier day, not touched today
@@ -393,9 +427,9 @@ def run_routine(case, forced=None):
                     st = "P"  # became in progress today with 0 minutes (possible when R == 2T+0?)
                 else:
                     st = "U"
-                today = int(rep.time_surveyed) - prev
-                outs.append([IDX(sid), st, today, int(rep.time_surveyed),
-                             int(rep.time_surveyed_current_day)])
+                today = MN(MN(rep.time_surveyed) - prev)
+                outs.append([IDX(sid), st, today, MN(rep.time_surveyed),
+                             MN(rep.time_surveyed_current_day)])
             rec["outcomes"] = outs
             returned = sched.update(wp, cur, False)
             # the survey reports the schedule hands back to the program: (site, completion date)
@@ -461,9 +495,11 @@ def run_followup(case, ops_fn=None):
     by_id = {s.get_id(): s for s in sites}
     start, end = D(case["start"]), D(case["end"])
     method = make_method(case.get("method_class", "component"), pdc.Deployment_Types.MOBILE, True,
-                         case["crews"], case["T"], case["hours"], sites)
+                         case["crews"], case["T"], case["hours"], sites, daylight=case.get("daylight") is not None)
     cap = case["cap"] if case.get("cap") is not None else method.estimate_average_daily_surveys()
     case["_cap_used"] = cap
+    case["_cap_method"] = method.estimate_average_daily_surveys()
+    case["_cap_documented"] = documented_daily_surveys(case)
     sched = FollowUpMobileSchedule(M(), sites, start, end, cap, method.get_crew_count())
     flags = sched.get_site_id_queue_list()
     weather = StubWeather(len(sites))
@@ -520,7 +556,7 @@ def run_followup(case, ops_fn=None):
         before = {sid: report_state(pl._active_survey_report) for sid, pl in wp.site_survey_planners.items()}
         prior_counts = {IDX(sid): sum(pl._surveys_this_year.values()) for sid, pl in wp.site_survey_planners.items()}
         try:
-            method.deploy_crews(wp, weather, None)
+            method.deploy_crews(wp, weather, None if case.get("daylight") is None else StubDaylight(case["daylight"]))
         except Exception as e:
             rec["crash"] = "key_error" if isinstance(e, KeyError) else type(e).__name__
             trace.append(rec)
@@ -537,12 +573,12 @@ def run_followup(case, ops_fn=None):
             prev = 0 if b is None else b[1]
             if rep.survey_complete:
                 st = "C"
-            elif rep.survey_in_progress and (int(rep.time_surveyed) != prev or not (b and b[0] == 1)):
+            elif rep.survey_in_progress and (MN(rep.time_surveyed) != prev or not (b and b[0] == 1)):
                 st = "P"
             else:
                 st = "U"
-            outs.append([IDX(sid), st, int(rep.time_surveyed) - prev, int(rep.time_surveyed),
-                         int(rep.time_surveyed_current_day)])
+            outs.append([IDX(sid), st, MN(MN(rep.time_surveyed) - prev), MN(rep.time_surveyed),
+                         MN(rep.time_surveyed_current_day)])
         rec["outcomes"] = outs
         try:
             sched.update(wp, cur, False)
